@@ -78,9 +78,9 @@ theorem tc_of_member (x : Xml) (h : tagMember x.ptag = some "TABLE_CELL") : x.pt
     have : e.1 = x.ptag := by simpa using he
     rw [← this]; exact ‹∀ e ∈ tagTable, e.2 = "TABLE_CELL" → e.1 = lit "w:tc"› e hm h
 
-theorem closeStep_dup (cfg : PartCfg) (s : DC) (x : Xml) (h : noMerges x = true) :
-    closeStep (withDup cfg true) s x = closeStep (withDup cfg false) s x := by
-  unfold closeStep
+theorem closeStepCore_dup (cfg : PartCfg) (s : DC) (x : Xml) (h : noMerges x = true) :
+    closeStepCore (withDup cfg true) s x = closeStepCore (withDup cfg false) s x := by
+  unfold closeStepCore
   split
   · rfl
   · rfl
@@ -93,6 +93,12 @@ theorem closeStep_dup (cfg : PartCfg) (s : DC) (x : Xml) (h : noMerges x = true)
     | comment _ _ => rfl
     | pi _ => rfl
   · rfl
+
+theorem closeStep_dup (cfg : PartCfg) (s : DC) (x : Xml) (h : noMerges x = true) :
+    closeStep (withDup cfg true) s x = closeStep (withDup cfg false) s x := by
+  unfold closeStep
+  congr 1; funext s0
+  exact closeStepCore_dup cfg s0 x h
 
 theorem openStep_dup (cfg : PartCfg) (s : DC) (x : Xml) (c : Bool) (roots : List (List Nest)) :
     openStep (withDup cfg true) s x c roots = openStep (withDup cfg false) s x c roots := rfl
